@@ -229,7 +229,7 @@ func (cr *cascadeRun) finish(out *sched.Outcome, err error) *cascadeResult {
 	cr.s.OpenAll()
 	cr.s.WaitDone(clients, 2*time.Second)
 	done := make(chan struct{})
-	go func() { cr.proc.ThreadPool().SetWorkerCount(0, true); close(done) }()
+	go func() { cr.proc.ThreadPool().SetWorkerCount(0, false); close(done) }()
 	select {
 	case <-done:
 	case <-time.After(2 * time.Second):
